@@ -90,8 +90,8 @@ class C02(Prop):
     min_evaluations = {"quick": 30_000, "thorough": 300_000}
     budget_s = {"quick": 60, "thorough": 900}
 
-    def worker_pyflags(self, shard):
-        return ["-O"] if shard == 15 else []   # one worker in an optimised interpreter: argument checks must not be assertions
+    def worker_pyflags(self, shard, nshards=1):
+        return ["-O"] if nshards > 1 and shard == nshards - 1 else []   # one worker in an optimised interpreter: argument checks must not be assertions
 
     def selftest(self):
         crc_and_frames()
